@@ -2,6 +2,7 @@ import Magog.Model.Time
 import Magog.Model.Eval
 import Magog.Model.Search
 import Magog.Model.Uci     -- C17
+import Magog.Model.Mirror  -- C15
 import Magog.Spec.Chess
 import Magog.Spec.Fen
 import Magog.Abs
@@ -330,6 +331,19 @@ def dispatch (f : List String) : String :=
       match placementPos pl true with
       | .ok p => "ok " ++ specAttRow (abs p) (if w == "1" then .white else .black)
       | .error e => panicStr e
+  | ["mirror", fen] => withFen fen fun p =>
+      -- the colour-flip `Model.mirror` the C15 theorems are about; compared with the orchestrator's independent FEN mirror
+      pure ("ok " ++ snapshot (mirror p))
+  | "sgamegen" :: fen :: mvs => withFen fen fun p => do
+      -- the rules: play the moves, then the legal moves of the position reached
+      let mut sp := abs p
+      for mv in mvs do
+        match specFindMove sp mv with
+        | none => return "ok nomove:" ++ mv
+        | some m => sp := Spec.apply sp m
+      let ms := Spec.legalMoves sp
+      let ts := ms.filter (Spec.isTactical sp)
+      pure s!"ok moves={sortedStrs (ms.map specMoveStr)} tact={sortedStrs (ts.map specMoveStr)} cnt={ms.length} tcnt={ts.length} chk={b2i (Spec.inCheck sp.board sp.turn)}"
   | "sgame" :: fen :: mvs => withFen fen fun p => do
       let mut sp := abs p
       let mut out := "ok"
